@@ -21,6 +21,7 @@ from common import CONFIG_INI, Quiet, known_open, pmap
 
 SIG_D14 = "empty-stage-no-data-file"
 SIG_D14B = "reference-to-empty-result-no-data-file"
+SIG_D26 = "self-replay-resolves-to-new-run-dir"
 CFG = CONFIG_INI.replace("csvpath = collect, fail, print", "csvpath = collect, print")
 
 FILTERS = ['gt(line_number(), {k})', 'exists(#b)', 'not(empty(#a))', 'above(int(#a), {k})', 'in(#b, "x|y|z z")', 'yes()', 'lt(line_number(), {k2})',
@@ -129,6 +130,18 @@ def ref_job(job):
             rfirst = f"$g.results.{os.path.basename(first['run_dir'])[:4]}:first.src"
             out["first_file"], out["replayed_first"] = replay("replay1", rfirst, first["lines"])
             out["first"] = first
+            # a group replaying its own most recent run (the reference names the group that is running)
+            paths.paths_manager.add_named_paths(name="selfg", paths=['~id: src~ $[*][ yes() ]'])
+            c10.set_clock((2026, 5, 6, 7, 10, 0))
+            paths.collect_paths(pathsname="selfg", filename="f0")
+            want_self = [list(l) for l in paths.results_manager.get_named_results("selfg")[0].lines.next()]
+            c10.set_clock((2026, 5, 6, 7, 11, 0))
+            try:
+                paths.collect_paths(pathsname="selfg", filename="$selfg.results.2026:last.src")
+                got_self = [list(l) for l in paths.results_manager.get_named_results("selfg")[0].lines.next()]
+                out["self_replay"] = {"want": want_self, "got": got_self}
+            except Exception as ex:  # noqa
+                out["self_replay"] = {"want": want_self, "exc": type(ex).__name__ + ": " + str(ex)[:160]}
     except Exception as ex:  # noqa
         out["exc"] = type(ex).__name__ + ": " + str(ex)[:200]
     finally:
@@ -245,6 +258,16 @@ def run(ctx):
         elif o["replayed"] is not None and o["last_file"] is not None and (o["replayed"] != e["lines"] or os.path.normpath(o["last_file"]) != os.path.normpath(e["data_file"])):
             fails.append({"kind": "a results reference used as a file name did not replay the referenced member's data.csv", "rows": rl, "replayed": o["replayed"], "data_csv_lines": e["lines"],
                           "last_resolves_to": o["last_file"], "expected": e["data_file"]})
+    selfs = [(rl, o["self_replay"]) for (jid, nruns, rl), o in zip(rjobs, rres) if not o["exc"] and o.get("self_replay")]
+    self_exc = [(rl, x) for rl, x in selfs if x.get("exc") and x["want"]]
+    self_bad = [(rl, x) for rl, x in selfs if not x.get("exc") and x["got"] != x["want"]]
+    if self_exc:
+        if known_open(ctx.pid, SIG_D26):
+            ctx.known(f"{SIG_D26}: a group cannot replay its own most recent run: the ':last' reference is resolved again after the new run's directory exists ({self_exc[0][1]['exc'][:90]}; {len(self_exc)} scenarios this run)")
+        else:
+            ctx.violation("self-replay", {"what": "a results reference naming the running group's own most recent run raises instead of replaying that run's data.csv", "case": {"rows": self_exc[0][0], **self_exc[0][1]}, "scenarios": len(self_exc)})
+    if self_bad:
+        fails.append({"kind": "a group replaying its own most recent run did not read that run's data.csv", "rows": self_bad[0][0], **self_bad[0][1]})
     empty_refs = [(rl, x) for (jid, nruns, rl), o in zip(rjobs, rres) if not o["exc"] for x in (o.get("empty_ref") or [])]
     if empty_refs:
         if known_open(ctx.pid, SIG_D14B):
